@@ -12,6 +12,7 @@ import DialsModel.Model.TfIO
 import DialsModel.Model.WrapIO
 import DialsModel.Model.FlagSrcIO
 import DialsModel.Model.DecodeIO
+import DialsModel.Model.WatchIO
 
 open Dials Dials.Proto
 
@@ -64,6 +65,7 @@ def handle (ss : Session) (line : String) : Session × String :=
   | "bk" :: rest => (ss, Wrap.handleBk rest)
   | "fs" :: rest => (ss, FlagSrc.handleFs rest)
   | "dc" :: rest => (ss, Decode.handleDc rest)
+  | "wt" :: rest => (ss, Watch.handleWt rest)
   | "rt" :: rest =>
     let (st, out) := Runtime.handleRt ss.rt rest
     ({ ss with rt := st }, (out.replace "\n" " "))
